@@ -3,7 +3,7 @@ Line-protocol driver for the HTLC model and the C03 / C04 monitors.
   model   <ops>              : prints one observation line per op line
   monitor <C03|C04|C13> <ops> <obs> : evaluates the Spec on the implementation's observation stream
                                (C13 = the HTLC slice: begin block completes, due contracts handled exactly once, queue hygiene)
-`htlc export` / `htlc reimport` lines (genesis round trip, C12) are answered by `Irismod.HtlcGen`
+`htlc export` / `htlc reimport` lines (genesis round trip, C12; a restart point for the C03 / C04 / C13 monitors) are answered by `Irismod.HtlcGen`
 (Model/HtlcGenesis.lean); `monitor C12` judges them (Spec/C12_Htlc.lean).
 -/
 import Irismod.Spec.C03
@@ -249,6 +249,7 @@ def runMonitor (prop : String) (ops obs : Array String) : IO Unit := do
   let mut pre : State := {}
   let mut s0 : State := {}
   let mut consecutive := true
+  let mut restarted := false
   let mut fails := 0
   let mut steps := 0
   for i in [0:ops.size] do
@@ -259,10 +260,28 @@ def runMonitor (prop : String) (ops obs : Array String) : IO Unit := do
     | "htlc" :: "reset" :: _ =>
       match parseState o with
       | some s =>
-        pre := s; s0 := s; consecutive := true
+        pre := s; s0 := s; consecutive := true; restarted := false
         let fs := if prop == "C04" then Spec.C04.resetFails s else Spec.C03.resetFails s
         for c in fs do
           fail c; fails := fails + 1
+      | none => fail "obs-parse"; fails := fails + 1
+    | ["htlc", "export"] =>
+      -- a genesis export reads the state; the next line's pre-state is whatever the implementation shows now
+      match parseState o with
+      | some s => pre := s
+      | none => fail "obs-parse"; fails := fails + 1
+    | ["htlc", "reimport"] =>
+      -- restart from the module's own exported genesis: the re-imported state is a fresh starting point and has to
+      -- satisfy what a reset state satisfies (Props/C12_HtlcRestart: it does, in the model); the history continues
+      -- from it.  A rejected import leaves the state as it was (classified by `monitor C12`).
+      match parseState o with
+      | some s =>
+        if o.head? == some "ok" then
+          pre := s; s0 := s; consecutive := true; restarted := true
+          let fs := if prop == "C04" then Spec.C04.restartFails s else Spec.C03.resetFails s
+          for c in fs do
+            fail ("reimport-" ++ c); fails := fails + 1
+        else pre := s
       | none => fail "obs-parse"; fails := fails + 1
     | _ =>
       match parseOp t, parseState o with
@@ -274,6 +293,7 @@ def runMonitor (prop : String) (ops obs : Array String) : IO Unit := do
         let fs :=
           if prop == "C13" then Spec.C03.stepFails13 consecutive pre op accepted panicked post
           else if prop == "C03" then Spec.C03.stepFails consecutive pre op accepted panicked post
+          else if restarted then Spec.C04.stepFailsAfterRestart s0 pre op accepted panicked post
           else Spec.C04.stepFails s0 pre op accepted panicked post
         for c in fs do
           fail c; fails := fails + 1
